@@ -714,6 +714,10 @@ func (c *FuncCtx) specBuiltin(st *State, name string, x *ast.CallExpr) ([]*Val, 
 		return []*Val{{T: t, S: mkSel(app(uf, v.S), k.S), Sort: "Int"}}, true
 	case "ncalls", "callarg", "callres", "calltime", "nfails":
 		return c.traceBuiltin(st, name, x)
+	case "clock":
+		// the ghost clock: it ticks at every traced call, so
+		// calltime(f, k) == clock() - 1 says "call k of f is the most recent traced call"
+		return []*Val{{T: tInt, S: c.traceClock(st), Sort: "Int"}}, true
 	case "tick", "ticks":
 		// ghost counters local to the function under verification: tick(c)
 		// (only in an "at call" clause) increments, ticks(c) reads
